@@ -49,12 +49,15 @@ type RouteKey struct {
 
 // Sim is the whole simulated network.
 type Sim struct {
-	G      Graph
-	Nodes  []*Node
-	Live   map[[2]int]bool // live links (subset of G.Edges)
-	Alt    map[[2]int]bool // directed (i,j): i currently hears j on the alternate face id
-	byName map[string]int
-	byHash map[uint64]int
+	G     Graph
+	Nodes []*Node
+	Live  map[[2]int]bool // live links (subset of G.Edges)
+	Alt   map[[2]int]bool // directed (i,j): i currently hears j on the alternate face id
+	// Passive: directed (i,j): j's regular sync Interests reach i under the passive prefix (i is
+	// not configured on j as an explicit neighbour). Static per configuration.
+	Passive map[[2]int]bool
+	byName  map[string]int
+	byHash  map[uint64]int
 	// Universe is the set of application prefixes the harness may announce (C19)
 	Universe map[string]bool
 
@@ -75,7 +78,7 @@ func init() {
 func NewSim(g Graph) *Sim {
 	vtime.Reset(false)
 	vsched.Reset()
-	s := &Sim{G: g, Live: map[[2]int]bool{}, Alt: map[[2]int]bool{}, byName: map[string]int{}, byHash: map[uint64]int{}, Universe: map[string]bool{}, TaskCap: 100000}
+	s := &Sim{G: g, Live: map[[2]int]bool{}, Alt: map[[2]int]bool{}, Passive: map[[2]int]bool{}, byName: map[string]int{}, byHash: map[uint64]int{}, Universe: map[string]bool{}, TaskCap: 100000}
 	for _, e := range g.Edges {
 		s.Live[e] = true
 	}
@@ -448,7 +451,7 @@ func (s *Sim) FailParked(x *Expressed, res ndn.InterestResult) {
 // quiescence in FIFO order.
 func (s *Sim) Exchange(i, j int) {
 	s.Exchanges++
-	s.Ping(i, j, true)
+	s.Ping(i, j, !s.Passive[[2]int{i, j}])
 	for _, x := range s.Parked(i, KAdvData) {
 		if x.Target == j {
 			s.DeliverAdv(x)
